@@ -5,8 +5,8 @@
 (* components.  Parse is the left-to-right scan of the accepted shape                            *)
 (*      [proto:][//][user[:passwd]@]host[:port][/path][?query]                                  *)
 (* Unparse is the canonical serialiser.  The environment (the protocol / service databases)      *)
-(* is a parameter lk of the parse: <<"P",0>> the protocol word is an IP protocol name,           *)
-(* <<"T",p>> / <<"U",p>> it is a tcp / udp service with port p, <<"N",0>> it is neither.         *)
+(* is a parameter lk of the parse: <<"ip",0>> the protocol word is an IP protocol name,           *)
+(* <<"tcp",p>> / <<"udp",p>> it is a tcp / udp service with port p, <<"no",0>> it is neither.         *)
 (* The laws of the property statement are stated on the reference itself (section "laws") and    *)
 (* model-checked over a universe of component tuples; the object actions (section "object")      *)
 (* are what the implementation is bound to by replay and by trace validation.                    *)
@@ -73,8 +73,8 @@ Dec(k) == IF k < 10 THEN <<48 + k>> ELSE Dec(k \div 10) \o <<48 + (k % 10)>>
 
 \* S: the environment is consulted only when a protocol but no port was given
 Consults(c) == c.proto # None /\ c.port = None
-\* S: port filled from the service database; a protocol-only match ("P") or no match ("N") fills nothing
-DefPort(c, lk) == IF Consults(c) /\ lk[1] \in {"T", "U"} THEN [c EXCEPT !.port = Some(Dec(lk[2]))] ELSE c
+\* S: port filled from the service database; a protocol-only match ("ip") or no match ("no") fills nothing
+DefPort(c, lk) == IF Consults(c) /\ lk[1] \in {"tcp", "udp"} THEN [c EXCEPT !.port = Some(Dec(lk[2]))] ELSE c
 ParseL(t, lk) == DefPort(ParseN(t), lk)
 
 ------------------------------------------------------------------------------------------
@@ -108,7 +108,7 @@ Step(op, args, ret, x, y, f) == /\ a' = x /\ b' = y /\ fresh' = f /\ Obs(op, arg
 
 \* lookup outcomes worth distinguishing for text t: all of them if the rule consults the environment,
 \* otherwise the most adversarial one only (every word is a service): the result must not depend on it
-LookupsFor(t) == IF Consults(ParseN(t)) THEN Lookups ELSE {lk \in Lookups : lk[1] = "T"}
+LookupsFor(t) == IF Consults(ParseN(t)) THEN Lookups ELSE {lk \in Lookups : lk[1] = "tcp"}
 
 OpParse(t, lk)  == /\ ~a.live /\ ~b.live
                    /\ Step("parse", <<t, lk>>, TRUE, Mk(t, ParseL(t, lk)), b, FALSE)
@@ -194,7 +194,7 @@ LawDefaultPort   == \A sl \in BOOLEAN, lk \in Lookups :
                        (WF(c0, sl) /\ Unamb(c0, sl)) =>
                           LET c1 == ParseL(Assemble(c0, sl), lk) IN
                           /\ c1 = DefPort(c0, lk)
-                          /\ ((c0.proto = None \/ c0.port # None \/ lk[1] \in {"P", "N"}) => c1 = c0)
+                          /\ ((c0.proto = None \/ c0.port # None \/ lk[1] \in {"ip", "no"}) => c1 = c0)
                           /\ (Unamb(TextCanon(c1), c1.host # None) => ParseL(Unparse(c1), lk) = TextCanon(c1))
 \* report (never fails): the ambiguous assemblies of the universe, computed rather than assumed
 AmbiguousReport  == \A sl \in BOOLEAN :
